@@ -143,4 +143,14 @@
         (lp (+ i 1)))))))
 
 (define (hex-string->bytevector str)
-  (integer->bytevector (hex-string->integer str)))
+  ;; two digits per byte, so that leading zero bytes (and the empty
+  ;; string) survive; an odd number of digits gets a leading 0
+  (let* ((str (if (odd? (string-length str)) (string-append "0" str) str))
+         (len (quotient (string-length str) 2))
+         (bv (make-bytevector len 0)))
+    (do ((i 0 (+ i 1)))
+        ((= i len) bv)
+      (let ((n (string->number (substring str (* 2 i) (+ 2 (* 2 i))) 16)))
+        (if (not (and n (exact-integer? n) (<= 0 n 255)))
+            (error "invalid hex string" str))
+        (bytevector-u8-set! bv i n)))))
